@@ -5,7 +5,8 @@
        the output is the input byte for byte (C04_nothing_applies);
      - a stage fails: the failing chunk and all later chunks pass through (C04_error_passthrough), and the HTML stage
        first releases every byte it was holding back (C04_html_error_releases), then is the identity (C04_html_in_error);
-     - insert-only text filters: output = prepended values ++ input ++ appended values (C04_text_insert_only).
+     - insert-only text filters: output = prepended values ++ input ++ appended values, for every chunking incl. empty
+       chunks and no chunk at all (C04_text_insert_only).
    PARTIAL: for the HTML append / prepend / replace stages the content clause (output = input plus insertions /
    minus whole element spans) is decided by the correspondence run on damaged documents, not by a theorem. *)
 Require Import RIO.Base RIO.TokMonad RIO.HtmlTok RIO.BodyText RIO.HtmlFilter RIO.ChainProofs RIO.BodyProofs RIO.CodecChain RIO.BodyPass.
@@ -33,12 +34,13 @@ Proof. exact hfb_in_error_identity. Qed.
 
 Theorem C04_text_insert_only : forall lower sel ctok fs chunks,
   (forall f, In f fs -> insert_only_text f) ->
-  chunks = [] \/ concat chunks <> [] ->
   body_run lower sel ctok fs chunks
   = pre_of (stages_of ctok fs) ++ concat chunks ++ app_of (stages_of ctok fs).
 Proof.
-  intros lower sel ctok fs chunks Hf Hc. rewrite body_run_total. apply insert_only_run; [|exact Hc].
-  apply insert_only_stages. exact Hf.
+  intros lower sel ctok fs chunks Hf. rewrite body_run_total.
+  pose proof (insert_only_stages ctok fs Hf) as Hfresh.
+  rewrite <- (pre_left_fresh _ Hfresh). apply insert_only_run_all.
+  apply Forall_forall. intros st Hst. apply fresh_is_ins. rewrite Forall_forall in Hfresh. apply Hfresh. exact Hst.
 Qed.
 
 (* the inserted values, concretely: prepends innermost-last, appends in order *)
@@ -49,7 +51,6 @@ Proof.
   intros lower sel body Hb. rewrite C04_text_insert_only.
   - cbn. rewrite app_nil_r. reflexivity.
   - intros f [<-|[<-|[<-|[<-|[]]]]]; exact I.
-  - right. cbn. rewrite app_nil_r. exact Hb.
 Qed.
 
 Print Assumptions C04_nothing_applies.
